@@ -15,7 +15,7 @@ Record raw_variant := { rv_ident : string; rv_shape : shape; rv_attrs : list raw
 Inductive gp_kind := GPLt | GPTy | GPConst.
 Record gparam := { gp_k : gp_kind; gp_name : string; gp_punct : bool; gp_decl : list tok }.
 Inductive raw_data := RStruct (sh : shape) (fs : list raw_field) | REnum (vs : list raw_variant) | RUnion.
-Record raw_input := { ri_ident : string; ri_generics : list gparam; ri_attrs : list raw_attr; ri_data : raw_data }.
+Record raw_input := { ri_ident : string; ri_generics : list gparam; ri_where : list (list tok); ri_attrs : list raw_attr; ri_data : raw_data }.
 
 (* ---------------- kinds and applicability ---------------- *)
 Inductive kind := OwnedInto | RefInto | FromOwned | FromRef | OwnedIntoExisting | RefIntoExisting.
